@@ -114,3 +114,11 @@ def reset():
 def upper(v):
     """compute_fn of a link"""
     return [x + 100 for x in v] if isinstance(v, list) else v
+
+
+def hexint(v):
+    """A user-written converter given as type= of a plain argparse action (not a type hint: the argument stays an
+    argparse store action).  Converts hexadecimal text, passes integers through, rejects everything else."""
+    if isinstance(v, bool) or not isinstance(v, (str, int)):
+        raise ValueError(f"not a hexadecimal number: {v!r}")
+    return int(v, 16) if isinstance(v, str) else v
